@@ -83,6 +83,7 @@ impl TaskManager {
 
 					// Flush ALL pending immutable memtables in a loop
 					let mut flush_count = 0;
+					let mut flush_failed = false;
 					loop {
 						match core.compact_memtable() {
 							Ok(()) => {
@@ -104,6 +105,7 @@ impl TaskManager {
 								core.error_handler()
 									.set_error(e, BackgroundErrorReason::MemtablaFlush);
 								write_stall.signal_shutdown();
+								flush_failed = true;
 								break;
 							}
 						}
@@ -125,6 +127,15 @@ impl TaskManager {
 					running.store(false, Ordering::SeqCst);
 					#[cfg(surrealkv_verif)]
 					crate::verif::yieldp::yield_point("task.mem.idle", 0, 0);
+
+					// A memtable rotated after the last `has_pending_immutables()` above but
+					// before `running` was cleared had its wake-up skipped
+					// (`wake_up_memtable` does nothing while the task is marked running):
+					// without another round it would never be flushed and writers would
+					// stall on it for good.
+					if !flush_failed && core.has_pending_immutables() {
+						notify.notify_one();
+					}
 				}
 				#[cfg(surrealkv_verif)]
 				crate::verif::yieldp::yield_point("task.mem.exit", 0, 0);
